@@ -35,3 +35,7 @@ claim("C15",
   "Through Handle + query_context: the query shown to the plugin chain carries exactly one fresh OPT (not the client's record, none of its options); the reply carries exactly one OPT iff the client sent one, it is the server's own record, DO mirrored, no client/upstream options, last in the additional section; the upstream's OPT is popped from every response set. TTL helpers leave the OPT flags word untouched and never duplicate/drop it; stored cache items contain no OPT.",
   "No explicitly forwarding plugin (ecs_handler, forward_edns0opt) in the harness chain; message level (wire codec not encoded); client OPT <= 2 options, upstream OPT 1-2 options.",
   "DESIGN.md §6 C15")
+claim("C20",
+  "fallback.doFallback is executed with its real goroutines, channels, select, pooled timer and context package under a bounded-preemption scheduler: with the threshold timer disarmed, for all 3x3 worker outcomes x always_standby and every schedule within the bound the primary's answer is returned whenever it produces one, the secondary is not started (non-standby) unless the primary failed, the secondary's answer is used only after primary failure, ErrFailed iff both fail; with all timers free to fire at any scheduling point and optional caller cancellation the call always returns, an answer is one of the workers' answers, ErrFailed only if both failed, other errors are the context's.",
+  "Preemption bound: C20_noTimer quick 2 / thorough 3, C20_timers quick 1 / thorough 2 (a timer firing while threads are runnable counts as a preemption); harness executables finish at an arbitrary scheduling point; schedule-dependent counterexamples are confirmed by native stress replay (up to 300000 iterations), not by a forced schedule.",
+  "DESIGN.md §6 C20")
